@@ -1172,12 +1172,16 @@ def run(ctx):
     hspecs = enumerate_hash_specs(ctx.tier)
     if len(set(specs + hspecs)) != len(specs) + len(hspecs):
         raise HarnessError("duplicate specs in the alphabet")
-    fp_out = run_child(dict(mode="fingerprint"), DUMP_SEED)
-    fp = fp_out["fingerprint"]
-    if run_child(dict(mode="fingerprint"), LOAD_SEEDS[0])["fingerprint"] != fp:
+    import concurrent.futures as cf
+
+    with cf.ThreadPoolExecutor(2) as ex:  # two fresh interpreters side by side
+        fps = list(ex.map(lambda sd: run_child(dict(mode="fingerprint"), sd), (DUMP_SEED, LOAD_SEEDS[0])))
+    fp = fps[0]["fingerprint"]
+    if fps[1]["fingerprint"] != fp:
         raise HarnessError("pristine fingerprint differs between two fresh interpreters (PYTHONHASHSEED 1 and 2)")
-    n_batches = common.NCPU * (2 if ctx.quick else 6)
     n_hbatches = 3 if ctx.quick else common.NCPU
+    # jobs of both families together fill the workers a whole number of times
+    n_batches = max(1, common.NCPU * (2 if ctx.quick else 6) - n_hbatches)
     jobs = []
     # the batches of the second family start first: they run 10 children each
     for idx in common.shards(len(hspecs), n_hbatches, ctx.seed):
